@@ -358,4 +358,96 @@ theorem cat_refines2 [Inhabited α] (L1 L2 : Lazy α) (b1 b2 : Shape) (keys : Li
     obtain ⟨rfl, _⟩ := lazyStack_some' _ _ _ h
     exact cat2_refines_other L1 L2 b1 b2 keys feat hU1 hU2 hne1 hlen hsd hbl d.toNat (by omega) hds
 
+
+theorem filter_range_getElem_inj (n : Nat) (p : Nat → Bool) (j j' : Nat)
+    (hj : j < ((List.range n).filter p).length) (hj' : j' < ((List.range n).filter p).length)
+    (h : ((List.range n).filter p)[j]?.getD 0 = ((List.range n).filter p)[j']?.getD 0) : j = j' := by
+  have hn : ((List.range n).filter p).Nodup := List.Nodup.sublist List.filter_sublist List.nodup_range
+  rw [List.getElem?_eq_getElem hj, List.getElem?_eq_getElem hj'] at h
+  exact (List.getElem_inj hn).mp (by simpa using h)
+
+/-- **Writes with a rank-1 mask on the stack dim**: the kept members, in order, receive the
+successive slices of the value along `split_dim = mask_loc - num_single` (through the index
+without the mask); the dense stack of the members afterwards is `dense[ix] = v`. -/
+theorem setitem_refines_mask1 [Inhabited α] (L : Lazy α) (b : Shape) (keys : List String)
+    (feat : String → Shape) (hU : Uniform L b keys feat) (hne0 : L.members ≠ []) (ix : List Ix)
+    (hp : PlainM L.sd ix) (hne : ∀ it ∈ ix, it ≠ Ix.ell) (hadv : AtMostOneAdv ix)
+    (m : T Bool) (hitem : (splitRec L.sd ix).item = some (.mask m))
+    (hnd : NoDupTargets (splitRec L.sd ix).out)
+    (v : TD α) (hvk : v.keys = keys) (hvl : ∀ k ∈ keys, (v.leaf k).shape = v.batch ++ feat k)
+    (bd : Shape) (hbd : idxShape ix (absL L).batch = some bd)
+    (L' : Lazy α) (h : lazySetCore L ix v = some L') :
+    L'.sd = L.sd ∧ Uniform L' b keys feat ∧ L'.members.length = L.members.length ∧
+    ∀ k ∈ keys, IsSetT ix ((absL L).leaf k) (v.leaf k) ((absL L').leaf k) := by
+  obtain ⟨st', hloop, hspec⟩ := splitLoop_mask L.sd L.members.length L.batch m ix L.sd 0 {} (by simp) hp hne
+    (by simpa [AtMostOneAdv] using hadv) hitem rfl
+  have hrank := plainM_mask_rank1 ix L.sd m hp hitem
+  obtain ⟨k, hk⟩ : ∃ k, m.shape = [k] := by
+    match hm : m.shape with
+    | [k] => exact ⟨k, rfl⟩
+    | [] => simp [hm] at hrank
+    | _ :: _ :: _ => simp [hm] at hrank
+  have hcat : (st'.maskLoc : Int) - st'.numSingle = (splitRec L.sd ix).pos := by
+    have := hspec.catDim; simpa using this
+  have hsplitDim : st'.splitDim = ((splitRec L.sd ix).pos : Int) := by rw [hspec.splitDim, hcat]
+  have hB := absL_batch_eq L b keys feat hU hne0
+  have hLb : L.batch = b.insertIdx L.sd L.members.length := hB
+  rw [hB] at hbd
+  have hsplit := shape_splitM L.members.length ix L.sd b hU.hsd hp
+  rw [hbd, hitem] at hsplit
+  cases hso : idxShape (splitRec L.sd ix).out b with
+  | none => simp [hso] at hsplit
+  | some so =>
+  simp only [hso, Option.getD_some, itemShape, Option.bind_some] at hsplit
+  have hkn : k = L.members.length := by
+    by_cases h' : m.shape = [L.members.length]
+    · rw [hk] at h'; simpa using h'
+    · simp [h'] at hsplit
+  subst hkn
+  have hnz := nonzero_rank1 m _ hk
+  unfold lazySetCore splitIndex at h
+  rw [hLb, hbd] at h
+  simp only [Option.bind_some] at h
+  split at h
+  · simp at h
+  rename_i hvb
+  have hvb : v.batch = bd := by simpa using hvb
+  rw [hvb] at hvl
+  rw [← hLb] at h
+  have hsel : (st'.sel.ids L.members.length).length ≤ m.shape.headD 0 := by
+    rw [hspec.sel, hk]; simp [Sel.ids]
+  simp only [hloop, Option.bind_some, hspec.hasBool, if_true, hspec.maskAt] at h
+  rw [if_pos hsel] at h
+  simp only [Option.bind_some, hspec.hasBool, if_true, hspec.maskAt, hk, hsplitDim,
+    hspec.outWo, List.nil_append, Int.toNat_natCast] at h
+  have hneg : ¬ (L.members.length ≠ L.members.length ∨ ((splitRec L.sd ix).pos : Int) < 0) := by omega
+  rw [if_neg hneg] at h
+  generalize hch : ((List.range L.members.length).filter fun i => m.get [i]) = chosen at h hnz
+  split at h
+  · simp at h
+  simp only [Option.map_eq_some_iff] at h
+  obtain ⟨ms', hw, rfl⟩ := h
+  have hcnt : (nonzero m).length = chosen.length := by rw [hnz]; simp
+  have hw' : writeAll (splitRec L.sd ix).out ((List.range chosen.length).map fun j =>
+      (chosen[j]?.getD 0, v.select (splitRec L.sd ix).pos j)) L.members = some ms' := by
+    rw [← hw]; congr 1
+    apply List.map_congr_left
+    intro j hj
+    simp [List.getElem?_eq_getElem (List.mem_range.mp hj)]
+  obtain ⟨h1, h2, h3⟩ := set_one_case L b keys feat hU hne0 ix hp bd hbd chosen.length
+    (fun j => chosen[j]?.getD 0) (by simp [hitem]) (by simp [hitem, itemShape, hk, hcnt])
+    (by
+      intro x
+      simp only [hitem, Option.getD_some, itemCoord, at0, List.getElem?_cons_zero, Option.getD_some]
+      rw [hnz]
+      by_cases hx : x < chosen.length
+      · simp [List.getElem?_map, List.getElem?_eq_getElem hx]
+      · simp [List.getElem?_map, List.getElem?_eq_none (show chosen.length ≤ x by omega)])
+    (by
+      intro j j' hj hj' heq
+      rw [← hch] at hj hj' heq
+      exact filter_range_getElem_inj _ _ j j' hj hj' heq)
+    hnd v hvk hvl ms' hw'
+  exact ⟨rfl, h1, h2, h3⟩
+
 end TdVerif.C08
